@@ -557,6 +557,7 @@ type GhostVar struct{ Name, Type, Pkg string }
 
 type ContractDB struct {
 	Ghosts  []GhostVar
+	Guarded map[string]string // "<pkgpath>.<Type>.<field>": accessed only with a mutex of the same object held
 	Externs map[string]map[string]*FuncContract // package path -> key -> contract
 	Pkgs    map[string]*PkgContracts // by package path
 	Funcs   map[string]*FuncContract // all, by key
@@ -576,7 +577,7 @@ var clauseKeywords = map[string]bool{
 	"requires": true, "ensures": true, "assigns": true, "loop": true, "inline": true,
 	"invariant": true, "guarded_by": true, "opaque": true, "trusted": true, "may_panic": true,
 	"wire": true, "noverify": true, "sort": true, "note": true, "let": true, "import": true,
-	"pure": true, "callassert": true, "havoc": true, "witness": true, "ghost": true, "extern": true, "bounded": true, "boundedonly": true, "dyntype": true,
+	"pure": true, "callassert": true, "havoc": true, "witness": true, "ghost": true, "guarded": true, "extern": true, "bounded": true, "boundedonly": true, "dyntype": true,
 }
 
 // extractContractLines pulls the "//@" lines out of a Go source or .spec file
@@ -684,6 +685,23 @@ func (db *ContractDB) parseFile(pkgPath, file, src string) error {
 				return fail(fmt.Errorf("ghost <name> <type>"))
 			}
 			db.Ghosts = append(db.Ghosts, GhostVar{Name: parts[0], Type: parts[1], Pkg: pkgPath})
+		case "guarded":
+			// guarded <Type>: f1, f2, ...   (fields of a struct of this package)
+			i := strings.Index(rest, ":")
+			if i < 0 || pkgPath == "" {
+				return fail(fmt.Errorf("guarded <Type>: field, field, ..."))
+			}
+			if db.Guarded == nil {
+				db.Guarded = map[string]string{}
+			}
+			// optional " for <property>": checked only in units of that property
+			fields, scope := rest[i+1:], "*"
+			if j := strings.Index(fields, " for "); j >= 0 {
+				fields, scope = fields[:j], strings.TrimSpace(fields[j+5:])
+			}
+			for _, f := range strings.Split(fields, ",") {
+				db.Guarded[pkgPath+"."+strings.TrimSpace(rest[:i])+"."+strings.TrimSpace(f)] = scope
+			}
 		case "extern":
 			// extern func <full key>: assumed contract of an external callee,
 			// visible only to units of this package
